@@ -25,14 +25,14 @@ QUICK = {
                                    "c04_enum_octet_maps", "c15_tlv_builder_readback"],
  "C05": ["c05_best_compare_matches_reference", "c05_best_compare_transitive", "c05_find_best_maximal_and_order_independent",
          "c05_state_decision_matches_reference", "c05_compare_matches_reference", "c05_compare_antisymmetric",
-         "c05_as_ordering_total", "c05_bmca_one_port"],
+         "c05_as_ordering_total", "c05_bmca_one_port", "c08_apply_recommendation"],
  "C06": ["c06_record_step_age", "c06_record_register", "c06_list_step_age", "c06_list_take_qualified", "c06_list_register",
          "c06_bmca_take_best_n01", "c06_bmca_take_best_n2a", "c06_bmca_take_best_n2b"],
  "C07": ["c07_gate_short", "c07_announce_rejected", "c07_slave_messages_in_other_states",
          "c07_foreign_master_registration", "c09_delay_resp"],
  "C08": ["c10_follow_up", "c10_delay_resp", "c10_send_sync", "c11_send_announce_pt", "c11_send_announce_nopt", "c12_announce_receipt_timer",
          "c12_delay_request_timer", "c08_kalman_peer_delay_only_never_steers", "c05_bmca_one_port",
-         "stub_interval_matches_real"],
+         "c08_apply_recommendation", "stub_interval_matches_real"],
  "C09": ["c09_sync", "c09_follow_up", "c09_delay_timestamp", "c09_delay_resp",
          "c03_sync_correction_exceeds_receive_time", "c03_follow_up_negative_correction_exceeds_timestamp"],
  "C10": ["c10_send_sync", "c10_follow_up", "c10_delay_resp", "c10_pdelay_resp", "c10_pdelay_resp_follow_up",
@@ -41,7 +41,7 @@ QUICK = {
          "c04_encode_announce", "stub_interval_matches_real"],
  "C12": ["c12_announce_receipt_timer", "c12_delay_request_timer", "c12_filter_update_timer", "c12_announce_duration_real",
          "c12_new_port_base_case", "c12_faulty_recovery_requests_receipt_timer", "c10_send_sync", "c11_send_announce_pt", "c11_send_announce_nopt",
-         "c05_bmca_one_port", "stub_interval_matches_real"],
+         "c05_bmca_one_port", "c08_apply_recommendation", "stub_interval_matches_real"],
  "C13": ["c13_basic_filter_finite", "c13_basic_filter_equal_event_times", "c13_change_frequency_est_pos",
          "c13_change_frequency_est_neg", "c13_change_frequency_noest_pos", "c13_change_frequency_noest_neg",
          "c13_steer_default_pos", "c13_steer_default_neg", "c13_demobilize_pos", "c13_demobilize_neg",
